@@ -971,7 +971,13 @@ class list_t(object):
         elif self.is_scalar:
             # Working with a scalar
             f = model.add_field()
-            f.set_val(self._elem_val(v))
+            # Masked to the element width, in two's complement reading for 
+            # a signed element type (what a scalar field holds, and what a 
+            # solve writes)
+            mask_v = int(v) & self.mask
+            if self.t.is_signed and (mask_v & (1 << (self.t.width-1))) != 0:
+                mask_v = mask_v - (1 << self.t.width)
+            f.set_val(mask_v)
         else:
             if not issubclass(type(v), type(self.t)):
                 raise Exception("Attempting to append illegal element to object array")
@@ -979,15 +985,6 @@ class list_t(object):
             model.append(v.get_model())
             # Propagate randomization information
             v.get_model().is_declared_rand = self.get_model().is_declared_rand
-            
-    def _elem_val(self, v):
-        """The value an element of a scalar list holds: masked to the element 
-        width, in two's complement reading for a signed element type (what a 
-        scalar field holds, and what a solve writes)"""
-        v = int(v) & self.mask
-        if self.t.is_signed and (v & (1 << (self.t.width-1))) != 0:
-            v -= (1 << self.t.width)
-        return v
             
     def extend(self, v):
         for vi in v:
@@ -1115,8 +1112,10 @@ class list_t(object):
             val = ei.e2v(v)
             self.get_model().field_l[k].set_val(val)
         elif self.is_scalar:
-            self.get_model().field_l[k].set_val(
-                ValueScalar(self._elem_val(v)))
+            mask_v = int(v) & self.mask
+            if self.t.is_signed and (mask_v & (1 << (self.t.width-1))) != 0:
+                mask_v = mask_v - (1 << self.t.width)
+            self.get_model().field_l[k].set_val(ValueScalar(mask_v))
         else:
             self.backing_arr[k] = v
             
